@@ -61,6 +61,39 @@ errinfo = C2.errinfo
 #  helpers
 # =====================================================================================
 
+_orig_canon = C2._canon
+
+
+def _canon_with_refs(schema, v, depth=0):
+    """c02's structural dump compares a stored expression by its text only; for C03 the OBJECTS the
+    expression was resolved to matter as well (a printed name that is re-resolved to another object
+    leaves the text unchanged): the names of Expression.refs are added"""
+    from edb.schema import expr as s_expr
+    if isinstance(v, s_expr.Expression):
+        refs = None
+        try:
+            if v.refs is not None:
+                # Expression.refs also holds objects the expression never names (bookkeeping of the
+                # compilation it came from, order dependent); keep the ones whose short name occurs in
+                # the text as an identifier
+                import re
+                refs = []
+                for o in v.refs.objects(schema):
+                    try:
+                        short = str(o.get_shortname(schema).name)
+                    except Exception:  # noqa
+                        continue
+                    if re.fullmatch(r'[A-Za-z_]\w*', short) and re.search(r'(?<![\w])' + re.escape(short) + r'(?![\w])', v.text):
+                        refs.append(str(o.get_name(schema)))
+                refs.sort()
+        except Exception as e:  # noqa
+            refs = ['ERR', type(e).__name__]
+        return ['expr', v.text, refs]
+    return _orig_canon(schema, v, depth)
+
+
+C2._canon = _canon_with_refs
+
 def mk_aliases(ses):
     return {(k if k is not None else None): v for k, v in ses}
 
@@ -92,9 +125,12 @@ def populate(B):
 
 
 def replay_asts(stmts, aliases):
+    """POPULATE MIGRATION re-loads every generated statement in the session; the ASTs are copied first:
+    compiling a statement imprints the session's aliases into its expression nodes in place"""
+    import copy
     from edb.schema import ddl as s_ddl
     schema = std_schema()
-    for stmt in stmts:
+    for stmt in copy.deepcopy(list(stmts)):
         schema, _ = s_ddl.delta_and_schema_from_ddl(stmt, schema=schema, modaliases=aliases, testmode=True)
     return schema
 
@@ -102,7 +138,8 @@ def replay_asts(stmts, aliases):
 def commit(stmts, aliases):
     from edb.edgeql import ast as qlast
     from edb.schema import ddl as s_ddl
-    cm = qlast.CreateMigration(body=qlast.NestedQLBlock(commands=list(stmts)), parent=None)
+    import copy
+    cm = qlast.CreateMigration(body=qlast.NestedQLBlock(commands=copy.deepcopy(list(stmts))), parent=None)
     M, _ = s_ddl.delta_and_schema_from_ddl(cm, schema=std_schema(), modaliases=aliases, testmode=True)
     return M
 
@@ -180,6 +217,14 @@ def run_describe(case):
             except Exception as e:  # noqa
                 out.append({'rejected': errinfo(e)})
         r['ddl_replay'] = out
+        if case.get('commit'):
+            # the same text as the body of one CREATE MIGRATION (what a migration file is)
+            try:
+                from edb import edgeql
+                M = commit(edgeql.parse_block(ddl), mk_aliases(sessions[0]))
+                r['ddl_commit'] = cmp_to(M, S, dS, own=False)
+            except Exception as e:  # noqa
+                r['ddl_commit'] = {'rejected': errinfo(e)}
     # ---------------- SDL
     sdl = None
     try:
@@ -241,9 +286,12 @@ def install_capture():
         def sort(graph, **kw):
             global _captured
             cap = {'keys': [str(k) for k in graph],
+                   'split': {str(k): [str(k.module), str(k.name)] for k in graph},
                    'deps': {str(k): [str(x) for x in v.deps] for k, v in graph.items()},
                    'weak': {str(k): [str(x) for x in v.weak_deps] for k, v in graph.items()},
-                   'lctl': {str(k): sorted(str(x) for x in v.loop_control) for k, v in graph.items()},
+                   'lctl': {str(k): [str(x) for x in v.loop_control] for k, v in graph.items()},
+                   'dsplit': {str(x): [str(x.module), str(x.name)] for v in graph.values()
+                              for x in list(v.deps) + list(v.weak_deps) + list(v.loop_control)},
                    'kinds': {'deps': sorted({type(v.deps).__name__ for v in graph.values()}),
                              'weak': sorted({type(v.weak_deps).__name__ for v in graph.values()}),
                              'lctl': sorted({type(v.loop_control).__name__ for v in graph.values()})}}
@@ -305,6 +353,17 @@ def ddl_of_doc(text):
     return stmts, [codegen.generate_source(s) for s in stmts]
 
 
+def user_types(S):
+    """{object type name: sorted base names} of the user-defined object types"""
+    from edb.schema import objtypes as s_objtypes
+    out = {}
+    for t in S.get_objects(exclude_stdlib=True, type=s_objtypes.ObjectType):
+        nm = str(t.get_name(S))
+        if nm.startswith('default::T'):
+            out[nm] = sorted(str(b.get_name(S)) for b in t.get_bases(S).objects(S))
+    return out
+
+
 def run_perm(case):
     r = {'id': case.get('id'), 'docs': []}
     nown = case.get('own', 1)
@@ -332,6 +391,12 @@ def run_perm(case):
             e['gsum'] = {'n': len(cap['keys']), 'cycle': cap.get('cycle'), 'kinds': cap['kinds']}
             if case.get('orders'):
                 e['order'] = cap.get('order')
+                e['cycle_item'] = cap.get('cycle')
+        if S is not None and case.get('types'):
+            e['types'] = user_types(S)
+        if S is not None and case.get('digest'):
+            import hashlib
+            e['digest'] = hashlib.sha256(json.dumps(dump(S), sort_keys=True).encode()).hexdigest()[:20]
         e['t'] = round(time.time() - t0, 2)
         r['docs'].append(e)
     if case.get('ddltext'):
@@ -476,6 +541,8 @@ def run_resolve(line):
     f = line.split(';')
     kind = f[0]
     schema = res_schema()
+    if kind == 'M':
+        return ','.join(str(c) for c, nm in sorted(COMP.items()) if schema.has_module(nm))
     flat = schema
     while not isinstance(flat, s_schema.FlatSchema):
         flat = flat._top_schema if hasattr(flat, '_top_schema') else flat._base_schema
